@@ -759,6 +759,9 @@ class Obj(Engine):
                 # immutable divide (C02): the same observation, reported under whichever is being checked
                 ctx.check(False, 'C09.eq', '%s %s does not compare equal (==:%r/%r) to a fresh %s object built from its current field values (after %s)'
                           % ('mutable' if h.mutable else 'immutable', h.kind, e1, e2, 'immutable' if h.mutable else 'mutable', op), op=op, kind=h.kind, mutable=h.mutable)
+            if e1 is True and e2 is True and hh is not True:
+                ctx.check(False, 'C09.hash', 'hash() of the %s %s differs from hash() of an equal fresh %s object (after %s): the Python hash does not reflect the field values alone'
+                          % ('mutable' if h.mutable else 'immutable', h.kind, 'immutable' if h.mutable else 'mutable', op), op=op, kind=h.kind, mutable=h.mutable)
             if not (e1 is True and e2 is True and hh is True and ids is True):
                 stale = h.mutable
                 clause = 'C09.ids' if (stale and hh is not True and e1 is True) else 'C02.mut-immut'
